@@ -457,3 +457,92 @@ def session_after(status, ct, bsel, is_sse, idsel, had_before):
         # an earlier response already issued sess-A; this one rotates it to sess-B
         return sequence([(200, 0, 0, False, 0, 0), first, second], "sess-A", "sess-B")
     return sequence([first, second], "sess-A", None)
+
+
+# ------------------------------------------------------------------ size / count dimension
+from harness import sizes as _sizes  # noqa: E402
+
+_sizes.size_cases(70000, extra=_sizes.ENV_SIZES)
+
+
+def post_big(k, pat, form, idsel, typed, lim=70000):
+    """the answer to one POST carries a string of c-1, c, c+1 characters (c: integer constants of the source and
+    environment sizes): (0) JSON body, (1) SSE body with one event, (2) SSE body where the long event is a
+    notification before the response, (3) JSON error body with a long message and status 400"""
+    n = _sizes.pick(_sizes.size_cases(lim, extra=_sizes.ENV_SIZES), k)
+    text = _sizes.long_text(n, pat)
+    rid = pick_id(idsel)
+    if rid is None:
+        return "ok"
+    resp = {"jsonrpc": "2.0", "id": rid, "result": {"t": text}}
+    note = {"jsonrpc": "2.0", "method": "notifications/message", "params": {"d": text}}
+    small = {"jsonrpc": "2.0", "id": rid, "result": {"ok": True}}
+    W.plan, W.posts = [], []
+    t = make_transport()
+    if form == 0:
+        W.plan.append(("resp", FakeResponse(200, {"Content-Type": "application/json"}, _json.dumps(resp, ensure_ascii=False).encode("utf-8"))))
+        exp = [resp]
+    elif form == 1:
+        W.plan.append(("resp", FakeResponse(200, {"Content-Type": "text/event-stream"}, ("event: message\ndata: " + _json.dumps(resp, ensure_ascii=False) + "\n\n").encode("utf-8"))))
+        exp = [resp]
+    elif form == 2:
+        body = "data: " + _json.dumps(note, ensure_ascii=False) + "\n\n" + "data: " + _json.dumps(small) + "\n\n"
+        W.plan.append(("resp", FakeResponse(200, {"Content-Type": "text/event-stream"}, body.encode("utf-8"))))
+        exp = [note, small]
+    else:
+        err = {"jsonrpc": "2.0", "id": rid, "error": {"code": -32001, "message": text}}
+        W.plan.append(("resp", FakeResponse(400, {"Content-Type": "application/json"}, _json.dumps(err, ensure_ascii=False).encode("utf-8"))))
+        exp = None
+    drive(t._send_message_via_http(out_message(rid, typed)))
+    delivered = [dump(m) for m in t._incoming_send.items]
+    if exp is not None:
+        if not same_json(delivered, exp):
+            return "delivered-messages-differ-from-body:%d" % len(delivered)
+        return "ok"
+    return _judge_post(delivered, ("synth", rid), rid)
+
+
+def post_many(k, idsel, lim=410):
+    """an SSE body with n notifications (n = c-1, c, c+1) before the response"""
+    n = _sizes.pick(_sizes.size_cases(lim), k)
+    rid = pick_id(idsel)
+    if rid is None:
+        return "ok"
+    msgs = [{"jsonrpc": "2.0", "method": "notifications/message", "params": {"n": i}} for i in range(n)] + [{"jsonrpc": "2.0", "id": rid, "result": {"ok": True}}]
+    body = "".join(("event: message\n" if i % 2 else "") + "data: " + _json.dumps(m) + "\n\n" for i, m in enumerate(msgs))
+    W.plan, W.posts = [("resp", FakeResponse(200, {"Content-Type": "text/event-stream"}, body.encode("utf-8")))], []
+    t = make_transport()
+    drive(t._send_message_via_http(out_message(rid, False)))
+    delivered = [dump(m) for m in t._incoming_send.items]
+    if len(delivered) != len(msgs):
+        return "messages-lost-or-duplicated:%d" % (len(delivered) - len(msgs))
+    if not same_json(delivered, msgs):
+        return "delivered-messages-differ-from-body"
+    return "ok"
+
+
+def posts_nth(k, idsel, lim=410):
+    """the (n+1)-th POST on one transport: each of the n earlier requests got exactly its own answer"""
+    n = _sizes.pick(_sizes.size_cases(lim), k)
+    rid = pick_id(idsel)
+    if rid is None:
+        return "ok"
+    W.plan, W.posts = [], []
+    t = make_transport()
+    exp = []
+    for i in range(n):
+        r = {"jsonrpc": "2.0", "id": "w%d" % i, "result": {"i": i}}
+        exp.append(r)
+        W.plan.append(("resp", FakeResponse(200, {"Content-Type": "application/json", "Mcp-Session-Id": "sess"}, _json.dumps(r).encode())))
+    last = {"jsonrpc": "2.0", "id": rid, "result": {"ok": True}}
+    exp.append(last)
+    W.plan.append(("resp", FakeResponse(200, {"Content-Type": "application/json"}, _json.dumps(last).encode())))
+    for i in range(n):
+        drive(t._send_message_via_http({"jsonrpc": "2.0", "id": "w%d" % i, "method": "ping"}))
+    drive(t._send_message_via_http(out_message(rid, True)))
+    delivered = [dump(m) for m in t._incoming_send.items]
+    if not same_json(delivered, exp):
+        return "delivered-messages-differ-over-a-long-connection:%d" % (len(delivered) - len(exp))
+    if n and W.posts[-1]["headers"].get("Mcp-Session-Id", W.posts[-1]["headers"].get("mcp-session-id")) != "sess":
+        return "session-header-lost-on-a-long-connection"
+    return "ok"
